@@ -26,6 +26,12 @@ class Fn:
                 self.names.setdefault(pl["l"], n["name"])
         self._defs = None
         self._cfg = None
+        self.promoted = {}
+        for pr in d.get("promoted", []):
+            pd = {"key": "%s::{promoted#%d}" % (self.key, pr["idx"]), "kind": "promoted", "file": self.file,
+                  "line": self.line, "derived": d["derived"], "vis": "n/a", "arg_count": 0, "locals": pr["locals"],
+                  "blocks": pr["blocks"], "names": []}
+            self.promoted[pr["idx"]] = Fn(pd)
 
     def __repr__(self):
         return "<Fn %s>" % self.key
